@@ -754,6 +754,31 @@ class SymBytes:
         from . import strs
         return strs.decode_bytes(self, encoding, errors)
 
+    def lower(self):
+        return mk_bytes([x + 32 if isinstance(x, builtins.int) and 65 <= x <= 90 else
+                         (x if isinstance(x, builtins.int) else z3.If(z3.And(z3.UGE(x, 65), z3.ULE(x, 90)), x + 32, x))
+                         for x in self.b], self.kind)
+
+    def upper(self):
+        return mk_bytes([x - 32 if isinstance(x, builtins.int) and 97 <= x <= 122 else
+                         (x if isinstance(x, builtins.int) else z3.If(z3.And(z3.UGE(x, 97), z3.ULE(x, 122)), x - 32, x))
+                         for x in self.b], self.kind)
+
+    def _is_ws(self, x):
+        if isinstance(x, builtins.int):
+            return x in (9, 10, 11, 12, 13, 32)
+        return bool(SymBool(z3.Or([x == k for k in (9, 10, 11, 12, 13, 32)])))
+
+    def strip(self, chars=None):
+        if chars is not None:
+            raise Unsupported("bytes.strip(chars) on symbolic bytes")
+        i, j = 0, len(self.b)
+        while i < j and self._is_ws(self.b[i]):
+            i += 1
+        while j > i and self._is_ws(self.b[j - 1]):
+            j -= 1
+        return mk_bytes(self.b[i:j], self.kind, True)
+
     def hex(self):
         return "<symbytes>"
 
